@@ -74,3 +74,32 @@ PROPS["C14"] = dict(
              consts=dict(Shapes={"quick": "ShapesQuick", "thorough": "ShapesThorough"}, Depth={"quick": 4, "thorough": 6})),
     ],
 )
+
+_mw_note = ("Trusted: TLC, binder comparison code (P accepted iff |P - exact| <= 1e-12 + 1e-9 exact; normal-approximation P evaluated with math.Erfc, abs 1e-10). "
+            "The specification's count vector is cross-checked by TLC against literal subset enumeration and literal pair counting (N <= CrossN), the Mann-Whitney recurrence (untied), "
+            "and the mirror/reversal/sum laws. Known finding: the exact two-sided P (see known_findings.txt) is attributed by signature only.")
+
+PROPS["C01"] = dict(
+    family="mw", specdir="mw",
+    technique="TLA+ definition of U (pair count) and of the exact permutation distribution (allocation generating function, cross-checked by subset enumeration) enumerated by TLC over every tie vector, split and allocation; replayed into MannWhitneyUTest",
+    level_text="TLC enumerates every tie vector with N <= 9 (thorough 12), every n1 and every allocation of tied values to the two samples, computing 2U and the exact cumulative tail counts over C(N,n1) (cross-checked against literal subset enumeration for N <= 7); the binder materialises each allocation under strictly increasing value maps and shuffles, calls MannWhitneyUTest for the three alternatives and compares N1, N2, U exactly and P to the exact rational",
+    level_note=_mw_note,
+    stages=[dict(name="gen", kind="gen", module="MannWhitney.tla", cfg="MW_gen.cfg",
+                 consts=dict(MaxN={"quick": 9, "thorough": 12}, CrossN={"quick": 7, "thorough": 8}, Configs="ConfigsDefault"))],
+)
+PROPS["C02"] = dict(
+    family="udist", specdir="mw",
+    technique="TLA+ definition of the null distribution of U for every tie vector (count vector over C(N,N1)), enumerated by TLC and compared with UDist.PMF/CDF on the whole half-integer grid",
+    level_text="TLC enumerates every (N1,N2,T) with N1+N2 <= 9 (thorough 13) and emits the exact count vector (three formulations cross-checked, mirror and reversal laws checked by TLC); the binder evaluates UDist.PMF and CDF at every half-integer from -1 to N1*N2+1 and CDF at off-grid points, for T as given and T=nil when untied, against the exact rationals, plus Bounds, Step, monotonicity",
+    level_note=_mw_note,
+    stages=[dict(name="gen", kind="gen", module="MannWhitney.tla", cfg="MW_gen.cfg",
+                 consts=dict(MaxN={"quick": 9, "thorough": 13}, CrossN={"quick": 7, "thorough": 8}, Configs="ConfigsDefault"))],
+)
+PROPS["C03"] = dict(
+    family="mw", specdir="mw",
+    technique="TLA+ state machine with the two limit variables as state (SetLimits) and Test returning error / exact tails / normal-approximation descriptor; enumerated by TLC under four limit configurations and replayed into MannWhitneyUTest with swap, shuffle, monotone-map and argument-immutability checks",
+    level_text="TLC enumerates every tie vector with N <= 7 (thorough 9), every split including empty samples and single-valued pools, under the limit configurations (50,25), (0,0), (3,2), (1000,1000); each case carries the expected error or method and either exact tails or the approximation descriptor (variance as an exact rational, continuity-corrected numerator); the binder sets the public limit variables, calls the test for all alternatives, the swapped call, shuffled and monotonically mapped data, and snapshots the arguments",
+    level_note=_mw_note + " Sizes of several hundred values are not yet reached (trace direction for mw not built yet); the formulas are size-independent and both methods are exercised on the same small data.",
+    stages=[dict(name="gen", kind="gen", module="MannWhitney.tla", cfg="MW_gen.cfg",
+                 consts=dict(MaxN={"quick": 7, "thorough": 9}, CrossN={"quick": 6, "thorough": 7}, Configs="ConfigsFour"))],
+)
